@@ -217,15 +217,19 @@ func (e *c06env) buildTx(route string, msgs []sdk.Msg, extra []*codectypes.Any) 
 			return nil, false
 		}
 		return bz, true
-	case "ethereum":
+	case "ethereum", "ethereum-messages-without-own-option":
 		// Ethereum route: extension option first, the eth messages' fee and gas in the envelope
 		b := n.Enc.TxConfig.NewTxBuilder()
 		vn.Must(b.SetMsgs(msgs...))
 		opt, err := codectypes.NewAnyWithValue(&evmtypes.ExtensionOptionsEthereumTx{})
 		vn.Must(err)
+		opts := append([]*codectypes.Any{opt}, extra...)
+		if route == "ethereum-messages-without-own-option" {
+			opts = extra
+		}
 		b.(interface {
 			SetExtensionOptions(...*codectypes.Any)
-		}).SetExtensionOptions(append([]*codectypes.Any{opt}, extra...)...)
+		}).SetExtensionOptions(opts...)
 		tf := sdk.Coins{}
 		tg := uint64(0)
 		for _, m := range msgs {
@@ -241,6 +245,49 @@ func (e *c06env) buildTx(route string, msgs []sdk.Msg, extra []*codectypes.Any) 
 		return out, true
 	}
 	return nil, false
+}
+
+// buildTxObject builds the Ethereum-route envelope as a transaction object (not bytes).
+func (e *c06env) buildTxObject(route string, msgs []sdk.Msg, extra []*codectypes.Any) (tx sdk.Tx, ok bool) {
+	n := e.n
+	defer func() {
+		if rec := recover(); rec != nil {
+			ok = false
+		}
+	}()
+	b := n.Enc.TxConfig.NewTxBuilder()
+	// as after decoding: the sender is not part of the wire format
+	var clean []sdk.Msg
+	for _, m := range msgs {
+		if em, ok := m.(*evmtypes.MsgEthereumTx); ok {
+			c := *em
+			c.From = ""
+			clean = append(clean, &c)
+		} else {
+			clean = append(clean, m)
+		}
+	}
+	vn.Must(b.SetMsgs(clean...))
+	opt, err := codectypes.NewAnyWithValue(&evmtypes.ExtensionOptionsEthereumTx{})
+	vn.Must(err)
+	opts := append([]*codectypes.Any{opt}, extra...)
+	if route == "ethereum-messages-without-own-option" {
+		opts = extra
+	}
+	b.(interface {
+		SetExtensionOptions(...*codectypes.Any)
+	}).SetExtensionOptions(opts...)
+	tf := sdk.Coins{}
+	tg := uint64(0)
+	for _, m := range msgs {
+		if em, ok := m.(*evmtypes.MsgEthereumTx); ok {
+			tf = tf.Add(sdk.NewCoin(vn.Denom, sdkmath.NewIntFromBigInt(em.GetFee())))
+			tg += em.GetGas()
+		}
+	}
+	b.SetFeeAmount(tf)
+	b.SetGasLimit(tg)
+	return b.GetTx(), true
 }
 
 func c06Case(r *report.R, e *c06env, id string) {
@@ -438,9 +485,9 @@ func c06ExtOpts(r *report.R, e *c06env, id string) {
 		}
 	}
 	names := []string{"dyn", "eth", "web3", "unregistered", "msg-as-option"}
-	base := c06Routes[rng.Intn(4)]
+	base := append(append([]string{}, c06Routes...), "ethereum-messages-without-own-option")[rng.Intn(5)]
 	k := rng.Intn(3) // extra options appended after the route's own option(s)
-	if base == "cosmos" && k == 0 {
+	if (base == "cosmos" || base == "ethereum-messages-without-own-option") && k == 0 {
 		k = 1
 	}
 	var extra []*codectypes.Any
@@ -467,11 +514,15 @@ func c06ExtOpts(r *report.R, e *c06env, id string) {
 				acceptable = false
 			}
 		}
+	case "ethereum-messages-without-own-option":
+		// signed Ethereum messages in an envelope whose options are only the listed ones: whatever the
+		// transactions before it were, this is the Ethereum route only if the list is exactly [eth]
+		acceptable = len(list) == 1 && list[0] == "eth"
 	default:
 		acceptable = len(list) == 0
 	}
 	var msgs []sdk.Msg
-	if base == "ethereum" {
+	if base == "ethereum" || base == "ethereum-messages-without-own-option" {
 		msgs = []sdk.Msg{e.msgOf(&mnode{kind: "ethtx"})}
 	} else {
 		msgs = []sdk.Msg{e.msgOf(&mnode{kind: "send"})}
@@ -481,8 +532,46 @@ func c06ExtOpts(r *report.R, e *c06env, id string) {
 		r.Count("unbuildable/extopts/"+base, 1)
 		return
 	}
-	code, log, unchanged, _ := e.deliverWithDigest(tx)
 	cls := fmt.Sprintf("extopts|%s|+[%s]", base, strings.Join(list, ","))
+	// options the decoder cannot even unpack never reach the ante handler through DeliverTx; the
+	// statement is about the ante handler's answer for a constructed transaction, so those are also
+	// handed to the installed handler directly (same instance, hence with whatever it remembers of
+	// the transactions before)
+	if !acceptable && (base == "ethereum" || base == "ethereum-messages-without-own-option") {
+		if ah := e.n.AnteHandler(); ah != nil {
+			if obj, okObj := e.buildTxObject(base, msgs, extra); okObj {
+				// the handler may remember the route of the transaction before: make that the Ethereum
+				// route half of the time (a valid transaction of the same messages, on a branch of its own)
+				if rng.Intn(2) == 0 {
+					if prime, okP := e.buildTxObject("ethereum", msgs, nil); okP {
+						pctx, _ := e.n.Ctx().WithBlockGasMeter(sdk.NewInfiniteGasMeter()).CacheContext()
+						func() {
+							defer func() { _ = recover() }()
+							if _, perr := ah(pctx.WithIsCheckTx(false), prime, false); perr == nil {
+								r.Count("ante_handler_primed_with_a_valid_ethereum_tx", 1)
+							}
+						}()
+					}
+				}
+				cctx, _ := e.n.Ctx().WithBlockGasMeter(sdk.NewInfiniteGasMeter()).CacheContext()
+				var err error
+				func() {
+					defer func() {
+						if rec := recover(); rec != nil {
+							err = fmt.Errorf("panic: %v", rec)
+						}
+					}()
+					_, err = ah(cctx.WithIsCheckTx(false), obj, false)
+				}()
+				if err == nil {
+					r.Violation(id, cls+"|accepted-by-the-ante-handler(constructed-tx)", "the installed ante handler let a constructed transaction with an option unknown to its route through", nil)
+					return
+				}
+				r.Count("extopt_rejected_by_ante_handler_directly", 1)
+			}
+		}
+	}
+	code, log, unchanged, _ := e.deliverWithDigest(tx)
 	if !acceptable {
 		if code == 0 || !unchanged {
 			r.Violation(id, cls+"|accepted", fmt.Sprintf("transaction with an option unknown to its route was accepted: code=%d state-unchanged=%v log=%.160s", code, unchanged, log), nil)
